@@ -345,6 +345,44 @@ def check_percolation(path, max_nodes, label, free_inputs=False):
     else:
         sd.expand_bfs(size_limit=max_nodes)
         spaces = [sd.node_data(i)["space"] for i in sd.node_ids()][:max_nodes] + [{}]
+    if not free_inputs:
+        # restrict_petrinet_to_subspace on the model's own net: for every free variable the restricted net's up / down
+        # implicants are, on the subspace, equivalent to the original net's (z3 over all states of the subspace), and the
+        # restricted net has no place of a fixed variable
+        from biobalm.petri_net_translation import restrict_petrinet_to_subspace
+        for S in spaces[:max_nodes]:
+            if not S:
+                continue
+            try:
+                rp = restrict_petrinet_to_subspace(sd.petri_net, S)
+            except Exception as e:
+                fails.append(f"{label}: restrict_petrinet_to_subspace raised {type(e).__name__}: {str(e)[:100]}")
+                continue
+            places = {n_[3:] for n_, d_ in rp.nodes(data=True) if d_.get("kind") == "place"}
+            if places & set(S):
+                fails.append(f"{label}: restricted net keeps a place of a fixed variable ({sorted(places & set(S))[:3]})")
+            sol = z3.Solver()
+            sol.set("timeout", 60000)
+            for k, v in S.items():
+                sol.add(var(k) == bool(v))
+            for nm in funs:
+                if nm in S:
+                    continue
+                for which in (0, 1):
+                    orig = pn_implicants(sd.petri_net, nm)[which]
+                    rest = pn_implicants(rp, nm)[which]
+                    fo = z3.Or([z3.And([var(k) == bool(v) for k, v in pre.items()]) for pre, _ in orig] + [z3.BoolVal(False)])
+                    fr = z3.Or([z3.And([var(k) == bool(v) for k, v in pre.items()]) for pre, _ in rest] + [z3.BoolVal(False)])
+                    sol.push()
+                    sol.add(z3.Xor(fo, fr))
+                    r = sol.check()
+                    q += 1
+                    sol.pop()
+                    if r == z3.sat:
+                        fails.append(f"{label}: restricted net enables a {'down' if which else 'up'} transition of {nm} differently from the original net on the space {dict(list(S.items())[:4])}")
+                        break
+                    if r != z3.unsat:
+                        fails.append(f"{label}: unknown (restriction of {nm})")
     for S in spaces:
         for rc in (True, False):
             try:
@@ -491,7 +529,7 @@ def main(tier, seed, t0, selftest=False):
             jobs.append({"kind": "small", "k": k, "bits": allbits[i:i + 32]})
     for n in ((2, 3) if q else (2, 3, 4)):
         jobs.append({"kind": "restrict", "n": n})
-    for p in (paths[:25] if q else paths[:120]):
+    for p in (paths[:130] if q else paths):
         jobs.append({"kind": "perc", "path": p, "max_nodes": 4 if q else 8})
     for p in (paths[:40] if q else paths[:150]):
         jobs.append({"kind": "perc", "path": p, "max_nodes": 4 if q else 12, "free": True})
@@ -537,7 +575,7 @@ def main(tier, seed, t0, selftest=False):
            "functions_encoded": FUNCTIONS,
            "bounds": {"a": f"{len([j for j in jobs if j['kind'] == 'model'])} repository models (all update functions, all states via z3) + all {2 + 16 + 256} functions of <= 3 inputs",
                       "b": "generic net G_n, n in " + str([j["n"] for j in jobs if j["kind"] == "restrict"]) + ": all nets, all subspaces, all states; composition for all compatible pairs of subspaces",
-                      "c": f"{len([j for j in jobs if j['kind'] == 'perc' and not j.get('free')])} repository models x node spaces of a size-limited expansion, remove_constants on/off; {len([j for j in jobs if j.get('free')])} models with their constant variables turned into free inputs (no update function) x spaces fixing inputs to 0 / 1 / all",
+                      "c": f"{len([j for j in jobs if j['kind'] == 'perc' and not j.get('free')])} repository models x node spaces of a size-limited expansion: restrict_petrinet_to_subspace equivalent to the original net on the space (z3), percolate_network with remove_constants on/off; {len([j for j in jobs if j.get('free')])} models with their constant variables turned into free inputs (no update function) x spaces fixing inputs to 0 / 1 / all",
                       "sym": "real network_to_petrinet + percolate_network on symbolic networks (U2 exhaustive, D3, S1C2) x symbolic subspace, results read back completely (checks/c10_sym.py); percolate_network statements for trap spaces only",
                       "outside": "class-level generalisation for percolate_network beyond what was read back (AEON inline_constants/infer_valid_graph are native): per model only"},
            "exhaustive": False}
